@@ -35,7 +35,8 @@ RULE = ("messages: every template (quick 3, thorough 24 per template per zone), 
         "through the dict form and the XML form, both as built and as decoded from the wire; LLSD trees to depth 4 "
         "(quick 9 x 3000, thorough 18 x 40000) with all scalar types, awkward strings, uris, binaries, naive/aware dates, "
         "vector types, through binary (+/- header), zipped, notation and XML. distinct_nontrivial = distinct (codec, tree "
-        "shape) pairs and distinct (message, block-count vector) pairs that round-tripped")
+        "shape) pairs and distinct (message, block-count vector) pairs that round-tripped"
+        ". Round-5 addition: every third case is repeated through a second LLSDMessageSerializer built on a caller-supplied template (other wire types), living next to the stock one, then the stock one again")
 ASSUMPTIONS = [
     "LLSD has no vector type: the library's vector types compare as their component arrays",
     "naive datetimes follow the LLSD convention (UTC); dates compare as instants; dates are drawn from 1970..2100",
@@ -58,7 +59,7 @@ _udp_deser = UDPMessageDeserializer(settings=_es)
 
 UTC = datetime.timezone.utc
 
-from ..custom_template import custom_template_file  # noqa: E402
+from ..custom_template import custom_template_file, check_stock_unchanged  # noqa: E402
 from hippolyzer.lib.base.message.template_dict import TemplateDictionary  # noqa: E402
 
 _CUSTOM_TD = TemplateDictionary(message_template=custom_template_file())
@@ -454,6 +455,8 @@ def run(ctx):
                 continue
             spec["acks"] = []
             check_message(ctx, tmpl, spec)
+            if k == 0 and ti % 40 == 0:
+                check_stock_unchanged(ctx)
             # the same message name under a caller-supplied template (other wire types for many variables), by a second
             # serializer living in the same process - and then the stock one again
             if k % 3 == 0:
